@@ -435,7 +435,7 @@ func main() {
 	}
 
 	// ---- plan
-	quickExplore, thoroughExplore := 105*time.Second, 24*time.Minute
+	quickExplore, thoroughExplore := 105*time.Second, 26*time.Minute
 	deadline := start.Add(quickExplore)
 	if thorough {
 		deadline = start.Add(thoroughExplore)
@@ -472,8 +472,8 @@ func main() {
 	}
 	for _, p := range pairsOf(alphabet) {
 		a, b := p[0], p[1]
-		addExplore("A", p, true, 1, 2*(1+nAll[a]+nAll[b]), 30000, 16)
-		addExplore("B", p, false, 2, 2*(1+nS[a]+nS[b]+nS[a]*nS[b]), 40000, 64)
+		addExplore("A", p, true, 1, 2*(1+nAll[a]+nAll[b]), 8000, 16)
+		addExplore("B", p, false, 2, 2*(1+nS[a]+nS[b]+nS[a]*nS[b]), 12000, 64)
 	}
 	if thorough {
 		passes = append(passes,
@@ -492,24 +492,25 @@ func main() {
 			a, b, c := nS[t[0]], nS[t[1]], nS[t[2]]
 			addExplore("C", t, false, 2, 6*(a*b+a*c+b*c)*2, 60000, 128)
 		}
-		// passes D and E grow with N^2 over all sites / N^3 over S sites: pairs of two Generate calls are out of reach
-		// (>= 25M schedules each) and are excluded by name; every other pair is explored completely.
-		isGen := func(o string) bool { return strings.HasPrefix(o, "Generate") }
+		// Passes D and E grow with N^2 over all sites / N^3 over class-S sites. Pairs whose estimated schedule
+		// count exceeds the per-pair limit (every pair of two Generate calls; in D also Generate with
+		// ReadFile/Format and ReadFile with itself) are left out by name; every other pair is explored completely.
+		const limitD, limitE = 6.5e6, 6e6
 		for _, p := range pairsOf(alphabet) {
 			a, b := p[0], p[1]
-			if isGen(a) && isGen(b) {
-				excluded["D"] = append(excluded["D"], a+"+"+b)
-				continue
+			if est := 2 * nAll[a] * nAll[b]; est > limitD {
+				excluded["D"] = append(excluded["D"], fmt.Sprintf("%s+%s (~%.1fM schedules)", a, b, est/1e6))
+			} else {
+				addExplore("D", p, true, 2, est, 150000, 256)
 			}
-			addExplore("D", p, true, 2, 2*(nAll[a]*nAll[b]), 150000, 256)
 		}
 		for _, p := range pairsOf(alphabet) {
 			a, b := nS[p[0]], nS[p[1]]
-			if isGen(p[0]) && isGen(p[1]) {
-				excluded["E"] = append(excluded["E"], p[0]+"+"+p[1])
-				continue
+			if est := 1 + a*b*(a+b); est > limitE {
+				excluded["E"] = append(excluded["E"], fmt.Sprintf("%s+%s (~%.1fM schedules)", p[0], p[1], est/1e6))
+			} else {
+				addExplore("E", p, false, 3, est, 80000, 256)
 			}
-			addExplore("E", p, false, 3, 1+a*b*(a+b), 80000, 256)
 		}
 	}
 	// passes in order (A before B ...), larger units first inside a pass
